@@ -11,3 +11,6 @@ open IrVerif.Sort
 #print axioms C12_respects
 #print axioms C12_cycle_iff
 #print axioms C12_cycle_no_change
+#print axioms C12_fixpoint_graph
+#print axioms C12_fixpoint
+#print axioms C12_deterministic
